@@ -403,6 +403,12 @@ func ruleBacktrack(r *Run) {
 					continue // reported by (b)
 				}
 			}
+			// a bounds pre-check: the return runs only where a value that is used as an index right after would be
+			// negative (or past the length) - the refused case panics today, no request that matched is affected
+			if p.isBoundsPrecheck(rt) {
+				r.ok("(*path).search/loop-error:bounds-precheck", rt.Pos(), "an error returned where the index that follows would be out of range (that case panics without the check)")
+				continue
+			}
 			r.bad("(*path).search/loop-error:"+describeValue(o), rt.Pos(), "an error other than a capture conversion failure is returned from inside the variable loop")
 		}
 	})
@@ -769,6 +775,41 @@ func ruleNoMapOrder(r *Run) {
 	if bad == 0 {
 		r.ok("(*state).match/reachable", m.Pos(), "%d functions reachable from match, none ranges over a map", len(reach))
 	}
+}
+
+// isBoundsPrecheck: rt is reached only where `v < 0` (or `v >= len(s)`) holds for a value v that the function uses
+// as a slice/array index on the other edge of that test.
+func (p *Program) isBoundsPrecheck(rt *ssa.Return) bool {
+	fn := rt.Parent()
+	usedAsIndex := func(v ssa.Value) bool {
+		found := false
+		eachInstr(fn, func(in ssa.Instruction) {
+			switch x := in.(type) {
+			case *ssa.IndexAddr:
+				if x.Index == v || p.sameValue(x.Index, v) {
+					found = true
+				}
+			case *ssa.Index:
+				if x.Index == v || p.sameValue(x.Index, v) {
+					found = true
+				}
+			}
+		})
+		return found
+	}
+	return p.guardedInEveryContext(rt.Block(), func(g guardFact) bool {
+		x, y, op, ok := g.cmp()
+		if !ok {
+			return false
+		}
+		if k, isC := constInt(y); isC && k == 0 && op == token.LSS && usedAsIndex(x) {
+			return true
+		}
+		if lc, isL := y.(*ssa.Call); isL && calleeName(lc) == "builtin.len" && (op == token.GEQ || op == token.GTR) && usedAsIndex(x) {
+			return true
+		}
+		return false
+	})
 }
 
 func ruleKeyAgree(r *Run) {
